@@ -267,6 +267,10 @@ func Run(ctx *common.Ctx) {
 		}
 		uid++
 	}
+	for _, ij := range genForced(ctx) {
+		ij.Job.ID = len(jobs) + len(impls)
+		impls = append(impls, ij)
+	}
 	all := append([]job(nil), jobs...)
 	for _, ij := range impls {
 		all = append(all, ij.Job)
@@ -365,7 +369,7 @@ func Run(ctx *common.Ctx) {
 			what = append(what, p.Shape)
 		}
 		nmodel := len(rjobs)
-		rimpl := genImpl(ctx, 1000)
+		rimpl := append(genImpl(ctx, 1000), genForced(ctx)...)
 		for _, ij := range rimpl {
 			ij.Job.ID = len(rjobs)
 			rjobs = append(rjobs, ij.Job)
